@@ -47,6 +47,9 @@ Definition db_transaction_from_bytes (data : slice) : out transaction :=
   | (r, _) => p <- expect r ;; Ok (parsed p)
   end.
 
+(* what SliceCache::get_value::<Transaction> applies to the stored bytes (windows relative to their start) *)
+Definition tx_from_stored (v : list byte) : out transaction := db_transaction_from_bytes (top v).
+
 (* OutPoint key order: [data1.cmp(data2)] on byte slices *)
 Fixpoint lex_compare (a b : list byte) : comparison :=
   match a, b with
